@@ -209,7 +209,13 @@ impl BuildSystem {
                 discovered_structs,
                 config,
             ) {
-                Ok(false) => {
+                Ok(false)
+                    if GenerationCache::outputs_present(
+                        &config.output_path,
+                        !analyzer.get_discovered_events().is_empty(),
+                        config.should_visualize_deps(),
+                    ) =>
+                {
                     self.logger
                         .verbose("Cache hit - no changes detected, skipping generation");
                     // Return list of existing files without regenerating
@@ -221,7 +227,7 @@ impl BuildSystem {
                     self.logger
                         .debug("Could not get existing file list, regenerating");
                 }
-                Ok(true) => {
+                Ok(_) => {
                     self.logger
                         .verbose("Cache miss - changes detected, regenerating");
                 }
